@@ -265,7 +265,7 @@ def run_tasks(args, jobs, deadline_s):
 
 
 def _deadline(tier):
-    return int(os.environ.get("PVC_TASK_DEADLINE", "3600" if tier == "thorough" else "600"))
+    return int(os.environ.get("PVC_TASK_DEADLINE", "3600" if tier == "thorough" else "480"))
 
 
 def _known(open_findings, res, ob_name):
